@@ -696,3 +696,27 @@ def shrink(case):
                 defs = list(a["defs"])
                 defs[di] = f[:i] + f[i + 1:]
                 yield make_case(tags, defs, main, a["globs"], a["enum"], a["fuel"])
+
+
+def check(tier, seed, replay=None):
+    """The standard flow, with one precaution: an observation that says the harness process died or
+    stalled ((abort ..), (hang), (missing)) must REPRODUCE when the case is run again before it is
+    judged - a process killed by the machine (global OOM killer, overload) is not the interpreter's
+    behaviour.  Genuine aborts (native stack overflow on deep recursion) reproduce and are judged."""
+    import types
+    from vlib import core, flow
+    me = types.SimpleNamespace(**{k: v for k, v in globals().items() if k != "check"})
+    orig = core.run_impl
+
+    def run_impl(mode, cases, exe=None, stall=30.0, workers=None):
+        res = orig(mode, cases, exe=exe, stall=stall, workers=workers)
+        redo = [c for c in cases if res.get(c["id"], "(missing)").startswith(("(abort", "(hang", "(missing"))]
+        if redo:
+            res.update(orig(mode, redo, exe=exe, stall=stall, workers=4))
+        return res
+
+    core.run_impl = run_impl
+    try:
+        return flow.standard_check(me, tier, seed, replay)
+    finally:
+        core.run_impl = orig
